@@ -4,6 +4,8 @@ Line-protocol driver for the LDM block model (C16 correspondence).
   explore <op> <op> / <op> … / …      threads separated by `/`; ops:
       regP:a deregP:o:a regC:a deregC:o:a:n add:o:a:v upd:o:i:v updMt:o:i:v del:o:i qry:o:a sub:o:a:sid unsub:o:a:sid
       gc:o:n attend:o:n
+      `app{` … `}`   the operations in between are issued while the thread holds the APPLICATION mutex `lkApp` (the
+                     mutex every notification callback takes): one segment `(true, ops)` of `sysApp`
   → all outcomes reachable under SOME schedule of the blocks, `|`-separated (sorted), or `bad-op`.
   seq <ops …>                          the same operations executed one after the other in EVERY order that respects the
                                        threads' program order (each operation atomic) → their outcomes
@@ -39,6 +41,24 @@ def splitThreads (ts : List String) : List (List String) :=
   r.1 ++ [r.2]
 
 def parseThreads (ts : List String) : Option (List (List Op)) := (splitThreads ts).mapM (fun th => th.mapM parseOp)
+
+/-- one thread's tokens → segments (`app{ ops }` = a segment under the application mutex; no nesting) -/
+def parseSegs (ts : List String) : Option (List Seg) :=
+  let rec go (ts : List String) (inApp : Bool) (cur : List Op) (acc : List Seg) (fuel : Nat) : Option (List Seg) :=
+    match fuel, ts with
+    | 0, _ => none
+    | _, [] => if inApp then none else some (acc ++ (if cur.isEmpty then [] else [(false, cur)]))
+    | f + 1, "app{" :: r => if inApp then none else go r true [] (acc ++ (if cur.isEmpty then [] else [(false, cur)])) f
+    | f + 1, "}" :: r => if inApp then go r false [] (acc ++ [(true, cur)]) f else none
+    | f + 1, t :: r => match parseOp t with
+      | some op => go r inApp (cur ++ [op]) acc f
+      | none => none
+  go ts false [] [] (ts.length + 1)
+
+def parseAppThreads (ts : List String) : Option (List (List Seg)) := (splitThreads ts).mapM parseSegs
+
+def segTI (g : Seg) : List TI :=
+  if g.1 then [TI.acq lkApp] ++ ((g.2.map compileT).flatten ++ [TI.rel lkApp]) else (g.2.map compileT).flatten
 
 def opIds : Op → List Nat
   | .deregP o _ => [o] | .deregC o _ _ => [o] | .add o _ _ => [o] | .upd o _ _ => [o] | .updMt o _ _ => [o] | .del o _ => [o]
@@ -146,12 +166,12 @@ def splitSetup (ts : List String) : List String × List String :=
   | (a, _ :: b) => (a, b)
   | (a, []) => ([], a)
 
-def withScenario (ts : List String) (f : LSt → List (List Op) → List Nat → List Nat → List Nat → List String) : String :=
+def withScenario (ts : List String) (f : LSt → List (List Seg) → List Nat → List Nat → List Nat → List String) : String :=
   let (su, rest) := splitSetup ts
-  match su.mapM parseOp, parseThreads rest with
+  match su.mapM parseOp, parseAppThreads rest with
   | some setup, some threads =>
     let s0 := (run (sys [setup]) (List.replicate (threadProg setup).length 0)).sh
-    let ops := setup ++ threads.flatten
+    let ops := setup ++ (threads.flatten.map (·.2)).flatten
     let ids := sortNat (dedup (ops.flatMap opIds))
     let qs := sortNat (dedup (ops.flatMap opQry))
     let aids := sortNat (dedup (ops.flatMap opAids))
@@ -161,13 +181,13 @@ def withScenario (ts : List String) (f : LSt → List (List Op) → List Nat →
 
 def exploreLine (ts : List String) : String :=
   withScenario ts (fun s0 threads ids qs aids =>
-    let x0 : XS := { sys := { sys threads with sh := s0 }, tp := threads.map (fun ops => (ops.map compileT).flatten) }
+    let x0 : XS := { sys := { sysApp threads with sh := s0 }, tp := threads.map (fun segs => (segs.map segTI).flatten) }
     (explore ids qs aids x0 {} {}).2.toList)
 
 /-- sequential outcomes: every merge run as ONE thread (operations atomic, in that order) -/
 def seqLine (ts : List String) : String :=
   withScenario ts (fun s0 threads ids qs aids =>
-    (merges threads).map (fun m =>
+    (merges (threads.map (fun segs => (segs.map (·.2)).flatten))).map (fun m =>
       let s := { sys [m] with sh := s0 }
       obs ids qs aids (run s (List.replicate (threadProg m).length 0)).sh))
 
